@@ -86,7 +86,11 @@ type mismatch struct {
 	Case  string `json:"case"`
 	Real  string `json:"real"`
 	Model string `json:"model"`
+	Setup string `json:"setup,omitempty"`
 }
+
+// caseSetup: what the real side did before the case that the case line does not say (the model does not need it)
+var caseSetup = map[string]string{}
 
 // A propFinding is an input on which the REAL code contradicts the property itself (decided by an oracle
 // that does not involve the Lean model): it becomes the replay of a VIOLATION.
@@ -245,17 +249,17 @@ func main() {
 			} else {
 				rep.Mismatches++
 				if len(rep.First) < 5 {
-					rep.First = append(rep.First, mismatch{lines[i], reals[i], got})
+					rep.First = append(rep.First, mismatch{lines[i], reals[i], got, caseSetup[lines[i]]})
 				}
 			}
 		} else if len(rep.Samples) < 3 && i%(len(reals)/3+1) == 0 {
-			rep.Samples = append(rep.Samples, mismatch{lines[i], reals[i], got})
+			rep.Samples = append(rep.Samples, mismatch{lines[i], reals[i], got, caseSetup[lines[i]]})
 		}
 		i++
 	}
 	if i != len(reals) {
 		rep.Mismatches += len(reals) - i
-		rep.First = append(rep.First, mismatch{"<driver answered " + strconv.Itoa(i) + " of " + strconv.Itoa(len(reals)) + " cases>", "", ""})
+		rep.First = append(rep.First, mismatch{"<driver answered " + strconv.Itoa(i) + " of " + strconv.Itoa(len(reals)) + " cases>", "", "", ""})
 	}
 	rep.Evaluations = len(reals)
 	if only != nil {
